@@ -771,3 +771,158 @@ func TestC09_Abandoned(t *testing.T) {
 		return c
 	}, checkAbandon)
 }
+
+// ---- two live objects on one goroutine's pool cache ------------------------------------------------------
+
+// PairSide is one of two bufiox objects that are alive at the same time.
+type PairSide struct {
+	Reader *ReaderCase `json:"reader,omitempty"`
+	Writer *WriterCase `json:"writer,omitempty"`
+}
+
+// PairCase interleaves the histories of two objects: Quanta[i] operations of one side, then the other side.
+type PairCase struct {
+	A      PairSide `json:"a"`
+	B      PairSide `json:"b"`
+	Quanta []int    `json:"quanta"`
+	Tenant int      `json:"tenant"`
+}
+
+func checkPair(c PairCase, cv *cov) *evid.Violation {
+	if (c.A.Reader == nil) == (c.A.Writer == nil) || (c.B.Reader == nil) == (c.B.Writer == nil) || len(c.Quanta) == 0 {
+		return nil
+	}
+	old := runtime.GOMAXPROCS(1)
+	defer runtime.GOMAXPROCS(old)
+	tn := tenantFor(1 << 18)
+	mode := c.Tenant
+	if mode == 0 {
+		mode = 1
+	}
+	type side struct {
+		resume chan struct{}
+		event  chan bool // true = finished
+		viol   *evid.Violation
+		ops    int
+		cv     cov
+	}
+	sides := [2]*side{{resume: make(chan struct{}), event: make(chan bool)}, {resume: make(chan struct{}), event: make(chan bool)}}
+	qi := 0
+	quantum := func() int {
+		q := c.Quanta[qi%len(c.Quanta)]
+		qi++
+		if q < 1 {
+			q = 1
+		}
+		return q
+	}
+	run := func(k int, ps PairSide) {
+		s := sides[k]
+		<-s.resume
+		left := quantum()
+		yield := func(prot []memRange, step int) *evid.Violation {
+			if v := tn.step(mode, step, prot); v != nil {
+				return v
+			}
+			left--
+			if left <= 0 {
+				s.event <- false
+				<-s.resume
+				left = quantum()
+			}
+			return nil
+		}
+		if ps.Reader != nil {
+			rc := *ps.Reader
+			hooks := &readerHooks{}
+			hooks.afterOp = func(step int, op ROp, live [][]byte) *evid.Violation {
+				var prot []memRange
+				if hooks.caller != nil {
+					prot = append(prot, rangeOfCap(hooks.caller))
+				}
+				for _, l := range live {
+					prot = append(prot, rangeOfLen(l))
+				}
+				s.ops++
+				return yield(prot, step)
+			}
+			s.viol = runReaderHistory(&rc, &s.cv, true, hooks)
+		} else {
+			wc := *ps.Writer
+			hooks := &writerHooks{}
+			hooks.afterOp = func(step int, op WOp, live [][]byte, owned [][]byte) *evid.Violation {
+				var prot []memRange
+				for _, l := range live {
+					prot = append(prot, rangeOfLen(l))
+				}
+				for _, o := range owned {
+					prot = append(prot, rangeOfCap(o))
+				}
+				if hooks.target != nil {
+					prot = append(prot, rangeOfCap(hooks.target))
+				}
+				s.ops++
+				return yield(prot, step)
+			}
+			s.viol = runWriterHistory(&wc, &s.cv, hooks)
+		}
+		s.event <- true
+	}
+	go run(0, c.A)
+	go run(1, c.B)
+	done := [2]bool{}
+	cur := 0
+	switches := 0
+	for !done[0] || !done[1] {
+		if done[cur] {
+			cur = 1 - cur
+		}
+		sides[cur].resume <- struct{}{}
+		if <-sides[cur].event {
+			done[cur] = true
+		}
+		cur = 1 - cur
+		switches++
+	}
+	v := tn.release()
+	for k, s := range sides {
+		if s.viol != nil {
+			s.viol.Msg = fmt.Sprintf("object %s (its history interleaved with a second live bufiox object on the same goroutine): %s", []string{"A", "B"}[k], s.viol.Msg)
+			return s.viol
+		}
+	}
+	if v != nil {
+		return v
+	}
+	cv.nontrivial = sides[0].ops >= 2 && sides[1].ops >= 2 && switches >= 4
+	cv.labelIf(c.A.Reader != nil && c.B.Reader != nil, "reader+reader")
+	cv.labelIf(c.A.Writer != nil && c.B.Writer != nil, "writer+writer")
+	cv.labelIf((c.A.Reader != nil) != (c.B.Reader != nil), "reader+writer")
+	return nil
+}
+
+func init() { register("c09_pair", checkPair) }
+
+func genPairCase(t *rapid.T) PairCase {
+	side := func(l string) PairSide {
+		if rapid.Bool().Draw(t, l+"isReader") {
+			c := genReaderTenantCase(t)
+			if len(c.Ops) > 14 {
+				c.Ops = c.Ops[:14]
+			}
+			return PairSide{Reader: &c}
+		}
+		c := genWriterTenantCase(t)
+		if len(c.Ops) > 14 {
+			c.Ops = c.Ops[:14]
+		}
+		return PairSide{Writer: &c}
+	}
+	return PairCase{A: side("a"), B: side("b"), Quanta: rapid.SliceOfN(rapid.IntRange(1, 3), 1, 6).Draw(t, "quanta"), Tenant: rapid.IntRange(1, 3).Draw(t, "tenant")}
+}
+
+func TestC09_Pairs(t *testing.T) {
+	rec := evid.New("C09", "c09_pairs", "rapid: two bufiox objects (reader+reader, reader+writer, writer+writer; the C09 reader and writer histories of <= 14 operations) alive at the same time and driven alternately on one processor (1..3 operations of one, then of the other, lock-stepped goroutines under GOMAXPROCS(1) so that both use the same pool caches), with the co-tenant after every operation; each object's own oracle (delivered bytes, live slices, regions, caller memory, sink contents) must hold; non-trivial = both objects did >= 2 operations and control changed sides >= 4 times")
+	defer rec.Flush()
+	runRapid(t, rec, "c09_pair", evid.Pick(1500, 12000), genPairCase, checkPair)
+}
